@@ -2,6 +2,11 @@ class ToolError(Exception):
     pass
 
 MC_EXCHANGE = {"name": "contract", "tla": "MC_Exchange.tla", "cfg": "MC_Exchange.cfg", "workers": 8}
+MC_READER = {"name": "reader-design(BodyReaderImpl satisfies the contract's read guards and never waits with deliverable data)",
+             "tla": "MC_BodyReaderImpl.tla", "cfg": "MC_BodyReaderImpl.cfg", "workers": 8}
+REPLAY_READER = {"gen": ("tlc", {"name": "reader-behaviours", "tla": "MC_BodyReplay.tla", "cfg": "MC_BodyReplay.cfg",
+                                 "simulate": {"num_quick": 3000, "num_thorough": 60000, "depth": 80}}),
+                 "runner": "exchange", "trace": "Trace_Exchange"}
 
 def fam(gen, runner="exchange", trace="Trace_Exchange", **kw):
     d = {"gen": ("harness", gen), "runner": runner, "trace": trace}
@@ -15,14 +20,14 @@ ASSUME_X = [
 
 PLAN = {
     "C01": {
-        "mc": [MC_EXCHANGE],
-        "families": [fam("x_small"), fam("x_large")],
+        "mc": [MC_EXCHANGE, MC_READER],
+        "families": [fam("x_small"), fam("x_large"), REPLAY_READER],
         "rule": "scenario = (script, segmentation, caller read schedule); small scripts enumerated exhaustively (payload<=4, all chunkings, every single cut point), large ones random around 8 KiB/64 KiB; distinct = distinct scenario id",
         "assumptions": ASSUME_X,
     },
     "C02": {
-        "mc": [MC_EXCHANGE],
-        "families": [fam("x_fault"), fam("x_large_fault")],
+        "mc": [MC_EXCHANGE, MC_READER],
+        "families": [fam("x_fault"), fam("x_large_fault"), REPLAY_READER],
         "rule": "every small script cut / failed (fatal and transient I/O errors) at every body offset, malformed chunk framing at every chunk, then reads continue after the error; large random ones with boundary-biased fault offsets",
         "assumptions": ASSUME_X,
     },
@@ -58,7 +63,8 @@ PLAN = {
         "assumptions": ASSUME_X + ["deflate = raw RFC 1951 stream (what the repository's tests send)", "inflate itself is opaque: its output is compared with the known payload in the projection"],
     },
     "C18": {
-        "mc": [],
+        "mc": [{"name": "streaming-decoder-design", "tla": "StreamDecoder.tla", "cfg": "StreamDecoder.cfg", "workers": 4},
+               {"name": "streaming-decoder-as-found(no spill buffer)", "tla": "StreamDecoder.tla", "cfg": "StreamDecoder_asfound.cfg", "workers": 4, "expect_violation": "NeverFails"}],
         "families": [{"gen": ("tlc", {"name": "charset-table", "tla": "MC_Charset.tla", "cfg": "MC_Charset.cfg", "workers": 2}),
                       "runner": "charset", "trace": "Trace_Charset"},
                      fam("charset_split", runner="charset", trace="Trace_Charset")],
@@ -111,7 +117,9 @@ PLAN = {
         "mc": [{"name": "watchdog-design", "tla": "Watchdog.tla", "cfg": "Watchdog.cfg", "workers": 4},
                {"name": "watchdog-as-found(exits after a ping)", "tla": "Watchdog.tla", "cfg": "Watchdog_asfound.cfg", "workers": 4, "expect_violation": "NoSpuriousTimeout"},
                {"name": "watchdog-reordered(shutdown before drop)", "tla": "Watchdog.tla", "cfg": "Watchdog_reordered.cfg", "workers": 4, "expect_violation": "CutNeverComplete"}],
-        "families": [fam("rt", runner="rt", trace="Trace_Timeouts", threads=12, budget_ms=60000),
+        "families": [{"gen": ("tlc", {"name": "watchdog-schedules", "tla": "MC_WatchdogReplay.tla", "cfg": "MC_WatchdogReplay.cfg", "workers": 4}),
+                      "runner": "wdsched", "trace": "Trace_Watchdog", "threads": 12, "budget_ms": 60000},
+                     fam("rt", runner="rt", trace="Trace_Timeouts", threads=12, budget_ms=60000),
                      fam("rt_release", runner="rt", trace="Trace_Timeouts", threads=1, budget_ms=60000)],
         "rule": "Watchdog.tla (reader / watchdog thread / peer / clock, one action per critical section) checked exhaustively by TLC for every interleaving and every read sequence after end-of-body, with the two design alternatives shown to violate the invariants; real loopback exchanges: every phase as the stall point (upload not read, before/inside the head, between head and body, inside a length / close / chunked body, chunk-size line, CONNECT reply) x silent stall / octet drip faster than the read timeout x overall timeout / read timeout alone; redirect chains whose hops together exceed T; prompt responses read on after end-of-body; thread and socket counts after drop",
         "assumptions": ["wall-clock checks use a margin of 700 ms against stalls of 2.5 s; the interleaving claims are decided in the model", "the connect phase is outside (the overall timeout applies once the connection is established)"],
@@ -170,8 +178,8 @@ PLAN = {
         "replay_runner": "loop", "replay_trace": "Trace_SendLoop",
     },
     "C19": {
-        "mc": [MC_EXCHANGE],
-        "families": [fam("x_small"), fam("x_large")],
+        "mc": [MC_EXCHANGE, MC_READER],
+        "families": [fam("x_small"), fam("x_large"), REPLAY_READER],
         "rule": "every transport read that finds nothing released is a pause point ('want' event) judged against Deliverable(arrived)",
         "assumptions": ASSUME_X,
     },
